@@ -44,6 +44,14 @@ pub const HOOKS: bool = cfg!(fast_tlsh_verif);
 pub fn run_check(id: &str, r: &mut Report, ctx: &Ctx) -> bool {
     match id {
         "C01" => checks::c01::run(r, ctx),
+        "C02" => checks::c02::run(r, ctx),
+        "C04" => checks::c04::run(r, ctx),
+        "C05" => checks::c05::run(r, ctx),
+        "C06" => checks::c06::run(r, ctx),
+        "C10" => checks::c10::run(r, ctx),
+        "C13" => checks::c13::run(r, ctx),
+        "C14" => checks::c14::run(r, ctx),
+        "C08" => checks::c08::run(r, ctx),
         "C09" => checks::c09::run(r, ctx),
         _ => return false,
     }
@@ -53,6 +61,14 @@ pub fn run_check(id: &str, r: &mut Report, ctx: &Ctx) -> bool {
 pub fn replay(id: &str, case: &serde_json::Value) -> Result<(), String> {
     match id {
         "C01" => checks::c01::replay(case),
+        "C02" => checks::c02::replay(case),
+        "C04" => checks::c04::replay(case),
+        "C05" => checks::c05::replay(case),
+        "C06" => checks::c06::replay(case),
+        "C10" => checks::c10::replay(case),
+        "C13" => checks::c13::replay(case),
+        "C14" => checks::c14::replay(case),
+        "C08" => checks::c08::replay(case),
         "C09" => checks::c09::replay(case),
         _ => Err(format!("no replay for {id}")),
     }
